@@ -36,6 +36,15 @@ structure Cmp (K : Type) where
   lt : K → K → Bool
   sqrt : K → K
 
+/-- `cos`, `sin`, `asin`, `acos`, `atan2` and the constant `PI` converted to the scalar type; no laws -/
+structure Trig (K : Type) where
+  cos : K → K
+  sin : K → K
+  asin : K → K
+  acos : K → K
+  atan2 : K → K → K
+  pi : K
+
 /-- `Quaternion_<T>`: members in declaration order `w, x, y, z` -/
 structure Quat (K : Type) where
   w : K
